@@ -20,6 +20,8 @@ type Replay struct {
 	Book     []rh.BOp          `json:"book,omitempty"`
 	MaxConns int               `json:"max_conns,omitempty"`
 	ET       *rh.ETScenario    `json:"exit_transit,omitempty"`
+	OR       *rh.ORScenario    `json:"open_race,omitempty"`
+	TD       *rh.TDScenario    `json:"teardown,omitempty"`
 }
 
 // ---------------------------------------------------------------------------
@@ -298,6 +300,8 @@ func main() {
 	}
 	_ = coqB
 	var etReplay *rh.ETScenario
+	var orReplay *rh.ORScenario
+	var tdReplay *rh.TDScenario
 	if c.Replay != "" {
 		var rp Replay
 		if err := c.ReadReplay(&rp); err != nil {
@@ -306,6 +310,10 @@ func main() {
 		switch rp.Kind {
 		case "exittransit":
 			etReplay = rp.ET
+		case "openrace":
+			orReplay = rp.OR
+		case "teardown":
+			tdReplay = rp.TD
 		case "table":
 			runTable(rp)
 		case "transit":
@@ -333,6 +341,19 @@ func main() {
 				runTable(w)
 			} else {
 				books = append(books, w)
+			}
+		}
+		// OPEN_ERR from one of two next hops that use the same downstream id: the
+		// refused tunnel's entry must go (repeated: Go map iteration order varies)
+		for k := 0; k < 8; k++ {
+			sc := rh.TransitScript{Me: rh.TransitMe, Locals: []uint64{}, Events: append(rh.TransitPrologue(),
+				rh.Event{Ev: "frame", From: 1, Frame: &rh.Frame{Fam: rh.TCP, Kind: rh.KOpen, ID: 1, Path: []int{3}, Tag: 61}},
+				rh.Event{Ev: "frame", From: 1, Frame: &rh.Frame{Fam: rh.TCP, Kind: rh.KOpen, ID: 3, Path: []int{4}, Tag: 62}},
+				rh.Event{Ev: "frame", From: 4, Frame: &rh.Frame{Fam: rh.TCP, Kind: rh.KErr, ID: 1, Tag: 62}},
+				rh.Event{Ev: "frame", From: 3, Frame: &rh.Frame{Fam: rh.TCP, Kind: rh.KErr, ID: 1, Tag: 61}})}
+			rp := Replay{Kind: "transit", Name: fmt.Sprintf("open-err-with-equal-downstream-ids-%d", k), Transit: &sc}
+			if obs, err := rh.RunTransit(sc); err == nil {
+				recordTransit(rp, obs, []rh.Tunnel{})
 			}
 		}
 		if rp, obs, ended, err := transitWitness(c); err == nil {
@@ -418,6 +439,59 @@ func main() {
 		}
 	} else if etReplay != nil {
 		runET(*etReplay)
+	}
+	// races around the forwarding of an OPEN (gated write to the next hop): whatever
+	// happens in that window, nothing may be left once the tunnel / the next hop is gone
+	runOR := func(sc rh.ORScenario) {
+		rp := Replay{Kind: "openrace", Name: fmt.Sprintf("open-race fam=%d %s", sc.Fam, sc.Kind), OR: &sc}
+		var o rh.ORObs
+		var err error
+		if p := vh.Recover(func() { o, err = rh.RunOpenRace(sc) }); p != "" || err != nil {
+			c.Fail("panic", fmt.Sprintf("%s: %s %v", rp.Name, p, err), rp)
+			return
+		}
+		c.Count("open-race:" + sc.Kind)
+		c.Case(rp.Name, true, rp)
+		if o.Notes != "" {
+			c.Fail("harness-timeout", rp.Name+": "+o.Notes, rp)
+			return
+		}
+		_, drain := rh.CheckOpenRace(sc, o)
+		for _, d := range drain {
+			c.Fail("relay-entry-inserted-for-a-gone-peer", rp.Name+": "+d, rp)
+		}
+	}
+	// link teardown through the real peer.Manager path: remote hang-up, local
+	// Disconnect(peer), local DisconnectAll() (the sleep path)
+	runTD := func(sc rh.TDScenario) {
+		rp := Replay{Kind: "teardown", Name: fmt.Sprintf("teardown %s peer=%d", sc.How, sc.Who), TD: &sc}
+		var o rh.TDObs
+		var err error
+		if p := vh.Recover(func() { o, err = rh.RunTeardown(sc) }); p != "" || err != nil {
+			c.Fail("panic", fmt.Sprintf("%s: %s %v", rp.Name, p, err), rp)
+			return
+		}
+		c.Count("teardown:" + sc.How)
+		c.Case(rp.Name, true, rp)
+		if o.Notes != "" || o.Before != [3]int{1, 1, 1} {
+			c.Fail("harness-timeout", fmt.Sprintf("%s: scenario could not be set up: %s before=%v", rp.Name, o.Notes, o.Before), rp)
+			return
+		}
+		if o.After != [3]int{} {
+			c.Fail("relay-entry-survives-link-teardown", fmt.Sprintf("%s: the link ended (%s) but the relay tables still hold tcp/udp/icmp = %v entries", rp.Name, sc.How, o.After), rp)
+		}
+	}
+	if c.Replay == "" {
+		for _, sc := range rh.AllOpenRaces() {
+			runOR(sc)
+		}
+		for _, sc := range rh.AllTeardowns() {
+			runTD(sc)
+		}
+	} else if orReplay != nil {
+		runOR(*orReplay)
+	} else if tdReplay != nil {
+		runTD(*tdReplay)
 	}
 	var sb strings.Builder
 	sb.WriteString("From Coq Require Import List NArith ZArith Bool.\nFrom MM Require Import Model.Relay Model.ExitBook.\nImport ListNotations.\nLocal Open Scope N_scope.\n")
